@@ -109,14 +109,16 @@ def create_t(tok, text, cname, fresh=False):
 
 
 def underlying(pat):
-    """the pattern object behind the public wrapper (DurationPattern keeps it in a private attribute)"""
-    for _ in range(4):
+    """the pattern object behind the public wrappers (DurationPattern, InstantPattern and the Instant adapter keep it
+    in a private attribute `__pattern`)"""
+    for _ in range(6):
         if hasattr(pat, "_underlying_pattern"):
             pat = pat._underlying_pattern
-        elif hasattr(pat, "_DurationPattern__pattern"):
-            pat = pat._DurationPattern__pattern
-        else:
+            continue
+        priv = [k for k in getattr(pat, "__dict__", {}) if k.endswith("__pattern")]
+        if not priv:
             break
+        pat = getattr(pat, priv[0])
     return pat
 
 
@@ -179,6 +181,8 @@ def value_of(ty, a):
         return P.AnnualDate(a[0], a[1])
     if ty == "duration":
         return P.Duration._ctor(days=a[0], nano_of_day=a[1])
+    if ty == "instant":
+        return P.Instant._ctor(days=P.LocalDate(a[0], a[1], a[2])._days_since_epoch, nano_of_day=a[3])
     raise ValueError(ty)
 
 
@@ -197,6 +201,9 @@ def fields_of(ty, x):
         return [x.month, x.day]
     if ty == "duration":
         return [x._floor_days, x._nanosecond_of_floor_day]
+    if ty == "instant":
+        ldt = x.in_utc().local_date_time
+        return [ldt.year, ldt.month, ldt.day, ldt.nanosecond_of_day]
     raise ValueError(ty)
 
 
@@ -255,7 +262,7 @@ def oracle(t):
 # generators
 # ---------------------------------------------------------------------------------------------------
 
-MODEL_TYPES = ["time", "date", "offset", "datetime", "annual", "duration"]
+MODEL_TYPES = ["time", "date", "offset", "datetime", "annual", "duration", "instant"]
 
 
 def type_token(rng, ty):
@@ -384,7 +391,7 @@ def gen_engine_ops(ctx, npat, cnames, hostile):
     fmt_ops, parse_ops = [], []
     pats = []
     for _ in range(npat):
-        ty = rng.choices(MODEL_TYPES, [4, 4, 2, 6, 2, 5])[0]
+        ty = rng.choices(MODEL_TYPES, [4, 4, 2, 6, 2, 5, 2])[0]
         pats.append((ty, c07.gen_custom(rng, ty)))
     for ty in MODEL_TYPES:
         for ch in c07.STANDARD[ty]:
@@ -416,7 +423,10 @@ def gen_engine_ops(ctx, npat, cnames, hostile):
                 v = c07.representable(rng, ty, info, pat, "ISO")
             if v is None:
                 v = c07.gen_value(rng, ty)
-            a = list(v[1:]) if ty in ("date", "datetime") else (list(v) if ty in ("annual", "duration") else [v])
+            if ty == "instant":
+                a = fields_of("instant", c07.mk("instant", v))
+            else:
+                a = list(v[1:]) if ty in ("date", "datetime") else (list(v) if ty in ("annual", "duration") else [v])
             fmt_ops.append(f"pat.fmt {tok} {h} {blob} " + " ".join(str(x) for x in a))
             try:
                 txt = pat.format(c07.mk(ty, v))
@@ -458,11 +468,11 @@ def run_engine_correspondence(ctx, hostile):
     rep = c07.model_eval(dl, "drv_text")
     ctx.note("stepped_roundtrip:Delimited-holds", {"patterns": len(rep), "delimited": rep.count("1"), "not": rep.count("0"), "not-stepped": rep.count("-")})
     # compileDate_wf / compileDateTime_wf say every accepted date-like pattern passes the decidable check; evaluated here as well
-    wl = ["pat.wf" + x[len("pat.delim"):] for x in dl if x.split(" ")[1].split(":")[0] in ("date", "datetime")]
+    wl = ["pat.wf" + x[len("pat.delim"):] for x in dl if x.split(" ")[1].split(":")[0] in ("date", "datetime", "annual", "instant")]
     wrep = c07.model_eval(wl, "drv_text")
     if "0" in wrep:
         raise c07.InfraError("pat.wf = 0 for an accepted pattern (contradicts compileDate_wf / compileDateTime_wf): " + wl[wrep.index("0")])
-    ctx.note("success_value_valid:dtWF-holds", {"patterns": len(wrep), "wf": wrep.count("1"), "dom": wrep.count("!dom")})
+    ctx.note("success_value_valid:dtWF-holds", {"patterns": len(wrep), "wf": wrep.count("1"), "segmented(embedded parts, not covered)": wrep.count("-")})
     for k in ("text.pat.fmt", "text.pat.parse"):
         st = ctx.suites.get(k)
         if st:
@@ -646,9 +656,10 @@ def run_names(ctx):
 
 
 def culture_hypotheses(ctx, cnames):
-    """the decidable culture conditions the theorems assume (compile_total: dtTextsNoL; date/datetime_success_valid:
-    monthHeadsEmpty), evaluated by the model on the culture records of this run and, independently, on the code's
-    format info; cultures failing one are recorded in the notes (the theorem does not speak about them)"""
+    """the decidable culture conditions the theorems assume (compileOffset_total: offsetTextsCustom;
+    date/datetime/annual/instant_success_valid: monthHeadsEmpty), evaluated by the model on the culture records of this
+    run and, independently, on the code's format info; cultures failing one are recorded in the notes (the theorem does
+    not speak about them).  The second flag of cu.check (dtTextsNoL) is no longer a hypothesis of any theorem."""
     ops, names = [], []
     for cn in cnames:
         blob = culture_blob(cn)
@@ -672,7 +683,7 @@ def culture_hypotheses(ctx, cnames):
             if not ok:
                 failing[k].append(cn)
     ctx.note("culture-hypotheses:evaluated", len(names))
-    ctx.note("culture-hypotheses:failing", {k: v for k, v in failing.items()})
+    ctx.note("culture-hypotheses:failing", {k: v for k, v in failing.items() if k != "dtTextsNoL"})
 
 
 def run_compile_correspondence(ctx):
